@@ -459,6 +459,174 @@ def run_histories(ctx, harness, quick, three):
             "(return value, tbGen set, usedSize reduced) vs TB/Abort.lean stepFixed; after every event: resident bytes == freshly generated table", histories=len(lines))
 
 
+
+# ---------------------------------------------------------------------------------------------
+# the retrograde generator model (Props/C12.lean retrograde_*): ties of its hypotheses and of its pass structure
+# ---------------------------------------------------------------------------------------------
+
+def sum_line(which, c, lo, hi):
+    return f"tb sum {which} {cstr(c)} {lo} {hi}"
+
+
+def sum_pair(harness, drv, which, c, lo, hi):
+    l = sum_line(which, c, lo, hi)
+    rc1, o1, e1 = run_cmd([harness], [l])
+    rc2, o2, e2 = run_cmd([drv], [l])
+    return (o1[0] if o1 else f"rc={rc1} {e1[-200:]}"), (o2[0] if o2 else f"rc={rc2} {e2[-200:]}")
+
+
+def movegen_job(harness, drv, which, c, lo, hi):
+    """C++ getMoves / getUnMoves vs their Lean transcriptions over the index range, by digest; on a mismatch the
+    range is bisected down to one index and the two lists are returned"""
+    a, b = sum_pair(harness, drv, which, c, lo, hi)
+    if a == b and a.startswith("sum "):
+        return {"which": which, "c": c, "lo": lo, "hi": hi, "ok": True, "legal": int(a.split()[3])}
+    if not (a.startswith("sum ") and b.startswith("sum ")):
+        return {"which": which, "c": c, "lo": lo, "hi": hi, "ok": False, "crash": [a, b]}
+    while hi - lo > 1:
+        mid = (lo + hi) // 2
+        a, b = sum_pair(harness, drv, which, c, lo, mid)
+        if a != b: hi = mid
+        else: lo = mid
+    op = "unidx" if which == "u" else "midx"
+    l = f"tb {op} {cstr(c)} {lo}"
+    _, o1, _ = run_cmd([harness], [l])
+    _, o2, _ = run_cmd([drv], [l])
+    return {"which": which, "c": c, "lo": lo, "hi": hi, "ok": False, "line": l, "impl": (o1 or [""])[0], "model": (o2 or [""])[0]}
+
+
+def retro_table_job(drv, c, path):
+    """run the Lean model of TBGenerator::generate on the class and compare its table with the C++ dump byte for byte"""
+    out = path + ".retro"
+    t0 = time.time()
+    rc, o, err = run_cmd(["nice", "-n", "5", drv, "tbretro"] + list(map(str, c)) + [out])
+    res = {"c": c, "rc": rc, "out": (o or [err[-300:]])[0], "seconds": round(time.time() - t0, 1)}
+    if rc == 0 and o and o[0].startswith("ok "):
+        kv = dict(x.split("=") for x in o[0].split()[1:])
+        res.update(passes=int(kv["passes"]), finished=kv["finished"] == "true", lo=int(kv["min"]), hi=int(kv["max"]))
+        a, b = open(path, "rb").read(), open(out, "rb").read()
+        res["same"] = a == b
+        if a != b:
+            i = next(k for k in range(min(len(a), len(b))) if a[k] != b[k]) if len(a) == len(b) else -1
+            res.update(index=i, impl_byte=a[i] if i >= 0 else None, model_byte=b[i] if i >= 0 else None,
+                       ndiff=sum(1 for x, y in zip(a, b) if x != y))
+        os.remove(out)
+    return res
+
+
+def simple_job(cmd):
+    t0 = time.time()
+    rc, o, err = run_cmd(cmd)
+    return rc, (o or [err[-300:]])[0], round(time.time() - t0, 1)
+
+
+def start_retro(ctx, ex, harness, tables, quick, hom4, ok4):
+    """submit all jobs of the retrograde ties to the executor; returns the futures"""
+    drv = vlib.driver_bin()
+    fut = {"movegen": [], "table": [], "ok": [], "hom": []}
+    for c, path in tables:
+        n = npos(c)
+        nchunk = 1 if sum(c) <= 1 else 8
+        for which in "um":
+            for k in range(nchunk):
+                fut["movegen"].append(ex.submit(movegen_job, harness, drv, which, c, n * k // nchunk, n * (k + 1) // nchunk))
+        fut["table"].append(ex.submit(retro_table_job, drv, c, path))
+        if sum(c) <= 1:
+            fut["ok"].append((c, "cached", ex.submit(simple_job, ["nice", "-n", "5", drv, "tbok"] + list(map(str, c)) + ["cached"])))
+            fut["hom"].append((c, 0, 4225, ex.submit(simple_job, ["nice", "-n", "5", drv, "tbhom"] + list(map(str, c)) + ["0", "4225"])))
+    for c in ok4:
+        fut["ok"].append((c, "direct", ex.submit(simple_job, ["nice", "-n", "5", drv, "tbok"] + list(map(str, c)) + ["direct"])))
+    for c in hom4:
+        for lo in range(0, 4225, 65):
+            fut["hom"].append((c, lo, lo + 65, ex.submit(simple_job, ["nice", "-n", "5", drv, "tbhom"] + list(map(str, c)) + [str(lo), str(lo + 65)])))
+    return fut
+
+
+def collect_retro(ctx, fut):
+    """evaluate the results of the retrograde ties"""
+    # 1. predecessor / successor generation vs the transcriptions
+    nbad = {"u": 0, "m": 0}
+    legal = 0
+    classes = set()
+    for f in fut["movegen"]:
+        r = f.result()
+        c = r["c"]; classes.add(cname(c))
+        ctx.count(r["hi"] - r["lo"])
+        if r["ok"]:
+            legal += r["legal"]; continue
+        w = r["which"]
+        nbad[w] += 1
+        if nbad[w] > 2: continue
+        if "crash" in r:
+            ctx.violation(f"{cname(c)}: `tb sum {w}` failed: {r['crash']}", {"kind": "impl-crash", "input": [sum_line(w, c, r['lo'], r['hi'])]}); continue
+        impl, model = r["impl"], r["model"]
+        if w == "u":
+            il = set(map(int, impl.split()[1:])) if impl.startswith("u") else None
+            ml = set(map(int, model.split()[1:])) if model.startswith("u") else None
+            miss = sorted(ml - il)[:6] if il is not None and ml is not None else None
+            extra = sorted(il - ml)[:6] if il is not None and ml is not None else None
+            ctx.violation(f"{cname(c)}: TBPosition::getUnMoves at index {r['lo']} is not the set of predecessors (converse of the legal-move relation, "
+                          f"Retro.getUnMovesIdx certified by okCheck): predecessors missing {miss}, spurious {extra}",
+                          {"kind": "property-predicate", "what": "predecessor generation is not complete and sound w.r.t. forward moves (hypothesis `conv` of retrograde_exact)",
+                           "tie": "unmoves-vs-model", "input": [r["line"]] + [f"tb midx {cstr(c)} {j}" for j in (miss or []) + (extra or [])],
+                           "impl_output": impl[:600], "model_output": model[:600]})
+        else:
+            ctx.violation(f"{cname(c)}: TBPosition::getMoves at index {r['lo']} differs from its transcription Retro.getMovesIdx: impl `{impl[:200]}` model `{model[:200]}`",
+                          {"kind": "correspondence", "tie": "moves-vs-model", "theorem_scope": "Props/C12.lean retrograde_exact_partial (TB/RetroChess.lean getMovesIdx no longer corresponds to tbgen.cpp)",
+                           "input": [r["line"]], "impl": impl[:1000], "model": model[:1000]}, no_input=True)
+    ctx.tie("unmoves-vs-model", kind="TBPosition::getUnMoves and getMoves vs their Lean transcriptions (Retro.getUnMovesIdx / getMovesIdx) on EVERY index of the listed classes "
+            "(digest per range, bisected to the failing index on a mismatch)", classes=sorted(classes), legal_indices_x2=legal)
+    # 2. the instance obligations, evaluated by the proven-sound executable checks
+    okc, homc = set(), set()
+    for c, how, f in fut["ok"]:
+        rc, o, secs = f.result()
+        ctx.count(npos(c))
+        if rc == 0 and o == "ok":
+            okc.add(c); continue
+        idx = o.split()[2] if o.startswith("fail index") else None
+        ctx.violation(f"{cname(c)}: the obligations Retro.OK of the retrograde theorem fail (getUnMoves is not the converse of getMoves on the legal indices, or an index leaves the table): {o[:400]}",
+                      {"kind": "property-predicate", "what": "un-move generation is not the converse of move generation", "tie": "retro-obligations",
+                       "input": ([f"tb unidx {cstr(c)} {idx}", f"tb midx {cstr(c)} {idx}"] if idx else {"counts": list(c), "class": cname(c)}), "checker_output": o[:1000]})
+    homfail = set()
+    for c, lo, hi, f in fut["hom"]:
+        rc, o, secs = f.result()
+        ctx.count((hi - lo) * 65 ** sum(c) * 2)
+        if rc == 0 and o == f"ok hom {lo} {hi}": continue
+        if c in homfail: continue
+        homfail.add(c)
+        ctx.violation(f"{cname(c)}: hypothesis homCheck of retrograde_exact_partial fails (legal positions and legal indices / their successors do not correspond): {o[:300]}",
+                      {"kind": "correspondence", "tie": "retro-hom", "theorem_scope": "Props/C12.lean retrograde_exact_partial: hypothesis homCheck",
+                       "input": {"counts": list(c), "class": cname(c), "rerun": f"driver tbhom {cstr(c)} {lo} {hi}"}, "checker_output": o[:1000]}, no_input=True)
+    homc = set(c for c, _, _, _ in fut["hom"]) - homfail
+    ctx.tie("retro-obligations", kind="compiled Lean: Retro.okCheckCached/okCheckDirect (index ranges; getUnMoves = converse of getMoves on all legal indices) and Retro.homCheck "
+            "(every placement: legal position <-> legal index, successors, in-check) — the hypotheses of retrograde_exact_partial",
+            ok_classes=sorted(cname(c) for c in okc), hom_classes=sorted(cname(c) for c in homc))
+    # 3. pass structure: the model's table vs the real generator's table
+    same, passes = [], {}
+    for f in fut["table"]:
+        r = f.result()
+        c = r["c"]
+        ctx.count(npos(c))
+        if r["rc"] != 0 or "same" not in r:
+            ctx.violation(f"{cname(c)}: the Lean model of TBGenerator::generate did not run: {r['out']}", {"kind": "model-crash", "input": {"counts": list(c)}}, no_input=True); continue
+        passes[cname(c)] = r["passes"]
+        if not r["finished"] or r["passes"] > 63 or r["lo"] < -1 or r["hi"] > 126:
+            ctx.violation(f"{cname(c)}: hypothesis of retrograde_exact fails: passes={r['passes']} finished={r['finished']} cell range {r['lo']}..{r['hi']}",
+                          {"kind": "correspondence", "tie": "retro-table", "theorem_scope": "Props/C12.lean retrograde_exact: hypothesis passes <= 63", "input": {"counts": list(c)}}, no_input=True)
+        if r["same"]:
+            same.append(cname(c)); continue
+        proven = c in okc and c in homc
+        msg = (f"{cname(c)}: the table of the real TBGenerator differs from the table computed by the Lean model of generate() at {r['ndiff']} indices, first at index {r['index']}: "
+               f"impl byte {r['impl_byte']} model byte {r['model_byte']}" + (" (the model's table is the exact one: its hypotheses were checked for this class)" if proven else ""))
+        rep = {"kind": "property-predicate" if proven else "correspondence", "tie": "retro-table",
+               "what": "table entry is not the value computed by the proven retrograde model (pass structure of generate() differs)",
+               "theorem_scope": "Props/C12.lean retrograde_exact_partial / TB/Retro.lean generate",
+               "input": {"counts": list(c), "class": cname(c), "retro": True, "index": r["index"], "regenerate": f"tb gen vec {cstr(c)} <file>", "model": f"driver tbretro {cstr(c)} <file2>"},
+               "impl_byte": r["impl_byte"], "model_byte": r["model_byte"]}
+        ctx.violation(msg, rep, no_input=not proven)
+    ctx.tie("retro-table", kind="table of the compiled Lean model Retro.generate (same phases, flags, block skip, counters) vs the dump of the real TBGenerator, byte for byte",
+            identical=same, passes=passes)
+
 # ---------------------------------------------------------------------------------------------
 
 def replay(ctx):
@@ -470,6 +638,11 @@ def replay(ctx):
     if isinstance(inp, dict) and "counts" in inp:          # certificate / audit failure: regenerate and re-run
         c = tuple(inp["counts"])
         path = gen_tables(ctx, harness, c)
+        if path and inp.get("retro"):
+            res = retro_table_job(vlib.driver_bin(), c, path)
+            print(res)
+            if not res.get("same"): ctx.violation(f"replay: the table of the real generator still differs from the model's table at index {res.get('index')}", rp)
+            return
         if path:
             if inp.get("unit"):
                 u = int(inp["unit"][0]) * 65 + int(inp["unit"][1])
@@ -524,7 +697,9 @@ def run(ctx):
                         "TB/Game.lean is chess for K,Q,R,B,N without castling rights (read it; it is also compared with Texel's MoveGen on random positions and is self-consistent by attacks_iff_reach)",
                         "BitBoard::extractSquare delivers the squares of a piece bitboard in increasing order (model of setPosition)",
                         "the harness reads private members (ttStorage, tbGen, usedSize) via #define private public; abort points are injected through the TEXEL_VERIF hook tbGenVerifHook",
-                        "3M random hash inserts stand for 'ordinary hash traffic'"]
+                        "3M random hash inserts stand for 'ordinary hash traffic'",
+                        "retrograde_exact_partial: its hypotheses okCheck / homCheck are evaluated by the compiled driver per class (2/3-man classes every run; sampled 4-man classes in thorough); "
+                        "the Lean model of generate() is tied to the code by byte-identical tables and by complete comparison of getMoves/getUnMoves with their transcriptions"]
     # 1. model ties through the line protocol
     full = three
     idx_lines = gen_idx_lines(ctx, quick, three, four, full)
@@ -544,8 +719,17 @@ def run(ctx):
         jobs += checker_jobs(c, path, range(4225))
         ctx.distinct(cname(c))
     jobs.sort(key=lambda j: -sum(j[0]))
+    # the retrograde-model ties run beside the certificate checker (their own small pool)
+    four_done = [c for c, _ in tables if sum(c) == 2]
+    hom4 = [] if quick else r.sample(four_done, min(3, len(four_done)))
+    ok4 = [] if quick else r.sample(four_done, min(3, len(four_done)))
+    rex = concurrent.futures.ThreadPoolExecutor(max_workers=4 if quick else max(4, njobs // 2))
+    rfut = start_retro(ctx, rex, harness, tables, quick, hom4, ok4)
     fails = run_checker(ctx, jobs, njobs, "certificate")
     ctx.log(f"certificate checker: {len(jobs)} jobs, {fails} failures")
+    collect_retro(ctx, rfut)
+    rex.shutdown()
+    ctx.log("retrograde-model ties done")
     run_aux(ctx, tables, njobs)
     ctx.sample({"tables_certified": [cname(c) for c, _ in tables]})
     # 3. probes on a 3-man and a 4-man class (thorough: more)
